@@ -82,6 +82,10 @@ var c15Fails = []c15Fail{
 	{"second-else-if-condition-on-a-later-line", "<%= if (false) { %>\n x\n<% } else if (false) { %>\n y\n\n<% } else if (fail()) { %>w<% } %>", false, true, 6, false},
 	{"else-if-block-statement-on-a-later-line", "<%= if (false) { %>\n x\n<% } else if (true) { %>\n y\n<%= nope %><% } %>", false, true, 5, false},
 	{"else-block-statement-on-a-later-line", "<%= if (false) { %>\n x\n<% } else { %>\n y\n<%= nope %><% } %>", false, true, 5, false},
+	{"else-if-condition-calling-a-function-that-fails-inside", "<% let fe = fn() {\n return nope + 1\n } %>\n<%= if (false) { %>a\n<% } else if (fe()) { %>b<% } %>", false, true, 2, false},
+	{"if-condition-calling-a-function-that-fails-inside", "<% let fe = fn() {\n\n return nope + 1 } %>\n<%= if (fe()) { %>a\n<% } else if (true) { %>b<% } %>", false, true, 3, false},
+	{"failure-in-the-else-block-after-false-else-ifs", "<%= if (false) { %>a\n<% } else if (false) { %>b\n<% } else if (nope) { %>c\n<% } else { %>\n<%= nope %><% } %>", false, true, 5, false},
+	{"failure-after-an-if-chain-in-the-same-tag", "<% if (false) { %>a\n<% } else if (false) { %>b\n<% }\n let q = nope %>", false, true, 0, false},
 	{"silent-for-not-iterable-over-lines", "<% for (v) in 5 { %>\n x\n<% } %>", false, true, 1, false},
 	{"silent-failing-block-helper-over-lines", "<% failb() { %>\n x\n<% } %>", false, true, 1, false},
 	{"failing-block-helper-over-lines", "<%= failb() { %>\n x\n\n<% } %>", false, true, 1, false},
@@ -159,7 +163,7 @@ func init() {
 			return s
 		},
 		Run:  c15Run,
-		Rule: "templates = every sequence of <=3 (4 thorough) preceding items from 14 (text lines, CRLF, single/multi-line tags, # comment lines, multi-line double- and back-quoted strings, multi-line comment tag, output tag, if/for blocks spanning lines, escaped tag) followed by one failing statement of 58 kinds (incl. a stored contentFor block failing when contentOf runs it: the line of the statement inside the block) (incl. partial calls whose partial fails on a line of its own, at its top level or inside a helper's block: the caller's error leads with the line of the call and only that number shifts; (failures reported at a multi-line string token) (10 runtime faults, 14 syntax-error families incl. un-parsable numbers, break outside a loop and argument lists cut by the closing tag, tokens directly followed by a newline, failures after a multi-line user function was called in the same statement, 2 multi-line failing tags, failures in the header of a statement whose block spans several tags and lines (if condition, else-if conditions and else-if / else block statements on later lines, non-iterable for, failing block helper - silent and emitting), unterminated string at EOF) at top level or inside if / else / for / fn (called later) / helper block / for+if bodies, followed by trailing text; then shifted by k in {1,2,3} leading newlines. For templates without preceding items the shifts are repeated with the template cache on (unshifted text first, two passes) and through a Template value (NewTemplate / a literal Template; a text that did not parse has its Input shifted and is parsed / executed again: the line of the current Input; a parsed one executed repeatedly and as a Clone: the same line). Oracle: (i) error starts with 'line N:'; (ii) N is the 1-based line on which the failing tag begins (within the tag's lines when it spans several / within the string's lines for an unterminated string); (iii) the shifted template's error equals the original with every 'line n:' replaced by 'line n+k:'. Non-trivial: at least one newline precedes the failing tag.",
+		Rule: "templates = every sequence of <=3 (4 thorough) preceding items from 14 (text lines, CRLF, single/multi-line tags, # comment lines, multi-line double- and back-quoted strings, multi-line comment tag, output tag, if/for blocks spanning lines, escaped tag) followed by one failing statement of 62 kinds (incl. a stored contentFor block failing when contentOf runs it: the line of the statement inside the block) (incl. partial calls whose partial fails on a line of its own, at its top level or inside a helper's block: the caller's error leads with the line of the call and only that number shifts; (failures reported at a multi-line string token) (10 runtime faults, 14 syntax-error families incl. un-parsable numbers, break outside a loop and argument lists cut by the closing tag, tokens directly followed by a newline, failures after a multi-line user function was called in the same statement, 2 multi-line failing tags, failures in the header of a statement whose block spans several tags and lines (if condition, else-if conditions and else-if / else block statements on later lines, non-iterable for, failing block helper - silent and emitting), unterminated string at EOF) at top level or inside if / else / for / fn (called later) / helper block / for+if bodies, followed by trailing text; then shifted by k in {1,2,3} leading newlines. For templates without preceding items the shifts are repeated with the template cache on (unshifted text first, two passes) and through a Template value (NewTemplate / a literal Template; a text that did not parse has its Input shifted and is parsed / executed again: the line of the current Input; a parsed one executed repeatedly and as a Clone: the same line). Oracle: (i) error starts with 'line N:'; (ii) N is the 1-based line on which the failing tag begins (within the tag's lines when it spans several / within the string's lines for an unterminated string); (iii) the shifted template's error equals the original with every 'line n:' replaced by 'line n+k:'. Non-trivial: at least one newline precedes the failing tag.",
 		Bound: func(th bool) string {
 			if th {
 				return "<=4 preceding items, 7 placements, shifts 1..3"
